@@ -19,6 +19,7 @@ import (
 
 	"github.com/gogo/protobuf/proto"
 	"github.com/pingcap/kvproto/pkg/metapb"
+	"github.com/pingcap/kvproto/pkg/pdpb"
 	"github.com/pingcap/log"
 	"github.com/tikv/pd/pkg/encryption"
 	"github.com/tikv/pd/pkg/mock/mockid"
@@ -240,20 +241,21 @@ func hb(rc *cluster.RaftCluster, info *core.RegionInfo) (err error) {
 // ---------- ops ----------
 
 type hop struct {
-	K   string       `json:"k"`
-	T   int          `json:"t,omitempty"`
-	R   *c07x.Region `json:"r,omitempty"` // what the driver asked for
-	P   *c07x.Region `json:"p,omitempty"` // projection of the real RegionInfo (what the model sees)
-	IDs []uint64     `json:"ids,omitempty"`
-	Pad int          `json:"pad,omitempty"` // saveraw: number of filler peers in the saved meta (size only, not part of the model)
-	Par int          `json:"par,omitempty"` // flush: runs in its own goroutine while the next Par operations are issued
+	K   string        `json:"k"`
+	T   int           `json:"t,omitempty"`
+	R   *c07x.Region  `json:"r,omitempty"` // what the driver asked for
+	P   *c07x.Region  `json:"p,omitempty"` // projection of the real RegionInfo (what the model sees)
+	IDs []uint64      `json:"ids,omitempty"`
+	Rs  []c07x.Region `json:"rs,omitempty"`  // reportsplit: the regions of the report (the last one is the parent)
+	Pad int           `json:"pad,omitempty"` // saveraw: number of filler peers in the saved meta (size only, not part of the model)
+	Par int           `json:"par,omitempty"` // flush: runs in its own goroutine while the next Par operations are issued
 }
 
 // journal of the running case (kept by the child process, read by the supervising parent after a crash)
 var journal *c07x.OpLog
 
 var opFunc = map[string]string{"hb": "processRegionHeartbeat", "begin": "processRegionHeartbeat", "step": "processRegionHeartbeat",
-	"run": "processRegionHeartbeat", "flush": "Storage.Flush", "snap": "ScanRegions+LoadRegion", "saveraw": "Storage.SaveRegion", "reload": "Storage.LoadRegions+CheckAndPutLoadedRegion"}
+	"run": "processRegionHeartbeat", "flush": "Storage.Flush", "snap": "ScanRegions+LoadRegion", "saveraw": "Storage.SaveRegion", "reload": "Storage.LoadRegions+CheckAndPutLoadedRegion", "reportsplit": "HandleBatchReportSplit"}
 
 var fillers = map[int][]*metapb.Peer{}
 
@@ -319,6 +321,12 @@ func (o hop) coq() string {
 		return "OSaveRaw " + o.P.Coq()
 	case "reload":
 		return "OReload"
+	case "reportsplit":
+		xs := make([]string, len(o.Rs))
+		for i := range o.Rs {
+			xs[i] = o.Rs[i].Coq()
+		}
+		return "OReportSplit [" + strings.Join(xs, "; ") + "]"
 	case "snap":
 		xs := make([]string, len(o.IDs))
 		for i, v := range o.IDs {
@@ -438,6 +446,15 @@ func (w *world) exec(o *hop) string {
 		if err := w.reader.SaveRegion(m); err != nil {
 			panic(err)
 		}
+		return "HoUnit"
+	case "reportsplit":
+		// the report of a split (unary RPC next to the heartbeat stream): logged and answered; the cache learns from heartbeats only
+		var metas []*metapb.Region
+		for i := range o.Rs {
+			m, _, _ := o.Rs[i].Meta()
+			metas = append(metas, m)
+		}
+		_, _ = w.main.HandleBatchReportSplit(&pdpb.ReportBatchSplitRequest{Regions: metas})
 		return "HoUnit"
 	case "reload":
 		// PD restarts: a fresh BasicCluster filled from storage the way RaftCluster.LoadClusterInfo does it (regions without
@@ -695,6 +712,28 @@ func genCase(r *rng.R, opt *config.PersistOptions, wb, enc bool, a c07x.Alphabet
 		}
 		if wb && r.Pct(12) {
 			g.step(hop{K: "flush"})
+		}
+		if r.Pct(10) && len(sent) > 0 { // the report of a split of a region PD may or may not have heard of: newer than, equal to or older than the cache
+			p := sent[r.Intn(len(sent))].Clone()
+			if p.End == "" || p.Start < p.End {
+				mid := p.Start + "m"
+				if p.End == "" || mid < p.End {
+					freshID++
+					left := p.Clone()
+					left.ID, left.End = freshID, mid
+					right := p.Clone()
+					right.Start = mid
+					left.Ver, right.Ver = p.Ver+uint64(1+r.Intn(2)), p.Ver+uint64(1+r.Intn(2))
+					left.Ver = right.Ver
+					for i := range left.Peers {
+						left.Peers[i].ID += 70000
+					}
+					left.Leader, left.Pending = left.Peers[0].ID, nil
+					g.ids[left.ID] = true
+					g.step(hop{K: "reportsplit", Rs: []c07x.Region{left, right}})
+					c.tags["split-report"]++
+				}
+			}
 		}
 		if !concurrent && r.Pct(6) { // PD restarts; delayed duplicates of earlier heartbeats keep arriving afterwards
 			g.step(hop{K: "flush"})
@@ -1037,6 +1076,31 @@ func reElection() (viol string, trace []string, note string) {
 	return "", trace, ""
 }
 
+// a delayed split report: regions 1 [a,c) v1 and 3 [c,d) v1 are cached; region 1 absorbs 3 (v2), splits at b (v3, the report of this
+// split is delayed) and splits again at c5 (v4); PD hears region 5 [c5,d) v4 from its own leader, then the delayed report
+// {2 [a,b) v3, 1 [b,d) v3} arrives.  A report is logged and answered: cache and storage keep what the heartbeats said.
+func splitReportCase(opt *config.PersistOptions, wb bool) hcase {
+	c := hcase{WB: wb, tags: map[string]int{"directed:delayed-split-report": 1}}
+	w := newWorld(wb, opt)
+	defer w.close()
+	g := &gen{r: rng.New(1), w: w, c: &c, ids: map[uint64]bool{}, last: time.Now()}
+	g.raw(hop{K: "snap"})
+	ps := func(id uint64) []c07x.Peer {
+		return []c07x.Peer{{ID: id*10 + 1, Store: 1}, {ID: id*10 + 2, Store: 2}, {ID: id*10 + 3, Store: 3}}
+	}
+	mk := func(id uint64, s, e string, ver uint64, stamp int64) c07x.Region {
+		return c07x.Region{ID: id, Start: s, End: e, Peers: ps(id), Leader: id*10 + 1, Size: 10, Ver: ver, ConfVer: 1, Term: 1, Stamp: stamp}
+	}
+	r1, r3, r5 := mk(1, "a", "c", 1, 1), mk(3, "c", "d", 1, 2), mk(5, "c5", "d", 4, 3)
+	g.step(hop{K: "hb", R: &r1})
+	g.step(hop{K: "hb", R: &r3})
+	g.step(hop{K: "hb", R: &r5})
+	g.ids[2] = true
+	g.step(hop{K: "reportsplit", Rs: []c07x.Region{mk(2, "a", "b", 3, 4), mk(1, "b", "d", 3, 5)}})
+	g.step(hop{K: "flush"})
+	return c
+}
+
 // the check-then-put window: stream A (a new id, older in version than what stream B is about to put over its range) passes the
 // first PreCheckPutRegion and waits at c.Lock(); B is processed completely; A is then rejected by the check under the lock.
 // Nothing of A may have reached the cache or storage.
@@ -1202,6 +1266,8 @@ func main() {
 		emit(autoFlushRegression(opt))
 		emit(overtakenSaveProbe(opt, false)) // direct backend only: a save into the write-back batch is not a kv write the harness can park
 		emit(termProbe(opt))
+		emit(splitReportCase(opt, false))
+		emit(splitReportCase(opt, true))
 		if d, ops := scanUnderWriter(opt, *seed, 1100, 400); d != "" {
 			R.Violate("C06:scan-answer-matches-no-state-of-the-cache", d+" (1100 regions w00001.. covering the key space; the replay lists the writer's merge / split heartbeats so far)",
 				map[string]interface{}{"wb": false, "regions": 1100, "ops": ops})
